@@ -42,7 +42,7 @@ var (
 	c02AllOps   = []string{"read", "create", "update", "delete", "list", "patch", "scan"}
 	c02CapNames = []string{"read", "create", "update", "delete", "list", "patch", "scan", "sudo"}
 	// token states that must be seen refused although their policies would allow
-	c02DeadKinds = []string{"garbage", "flipped-char", "flipped-head", "flipped-mid", "flipped-tail", "truncated", "revoked", "expired", "exhausted", "cidr", "entity", "batch-flipped", "batch-expired", "batch-of-revoked-parent", "batch-of-revocation-interrupted-parent", "batch-of-expired-parent", "batch-of-expired-unreaped-parent"}
+	c02DeadKinds = []string{"garbage", "flipped-char", "flipped-head", "flipped-mid", "flipped-tail", "truncated", "revoked", "expired", "exhausted", "cidr", "entity", "batch-flipped", "batch-expired", "batch-of-revoked-parent", "batch-of-revocation-interrupted-parent", "batch-of-expired-parent", "batch-of-expired-unreaped-parent", "exhausted-unreaped"}
 )
 
 type c02Run struct {
@@ -1563,7 +1563,7 @@ func c02RunTopology(t *testing.T, r *kit.Result, seed int64, stream uint64, case
 func TestVerif_C02_Requests(t *testing.T) {
 	seed := kit.Seed(2)
 	shard, _ := kit.Shard()
-	r := kit.NewResult(t, "c02-requests", seed, "generated namespace trees (depth<=3) x recording secrets/auth mounts at nested and sibling-prefix paths x generated ACL policies (exact, trailing-*, + segments, deny, sudo) x tokens in the states {absent, garbage, one character / one byte (head, middle, signature) flipped, truncated signature, revoked, expired, exhausted, last use, CIDR-bound, disabled entity, batch, batch mutated / expired / parent revoked, other namespace, root}; every request (plain, rule-directed and hostile forms: trailing and doubled slashes, ./.. segments, mount-boundary, namespace by header or by path prefix, unknown namespaces, restricted sys APIs in child namespaces, internal operations) is judged by the reference authoriser and compared with handler log, response class, tagged physical writes and a digest of the recording mounts' storage; configuration changes (policy rewrite/delete/recreate, token revocation by id / accessor / self, entity disable and entity policies, unmount / mount / remount, one seal-unseal cycle with requests against the sealed core) are bracketed by the same request before and immediately after; three of four topologies run with the cache (and therefore the policy LRU) enabled, half on a transactional store. A case is non-trivial when (a) a request was refused only because of the token state while its policies allow it, (b) an authorised request reached the handler, or (c) a mutation flipped the verdict of the very next request; distinct by (state, op, mount, backend path)")
+	r := kit.NewResult(t, "c02-requests", seed, "generated namespace trees (depth<=3) x recording secrets/auth mounts at nested and sibling-prefix paths x generated ACL policies (exact, trailing-*, + segments, deny, sudo) x tokens in the states {absent, garbage, one character / one byte (head, middle, signature) flipped, truncated signature, revoked, expired, exhausted, exhausted with the queued revocation of the spent token failing once, last use, CIDR-bound, disabled entity, batch, batch mutated / expired, batch created by a service token that is live / revoked completely / revoked through a generated API flow with one storage fault at a generated operation index (the record stays marked in storage) / expired and reaped / expired with the expiry job failing once (record left) / use-limited (creation must be refused), other namespace, root, root policy of a child or grand-child namespace (namespace root token, its child and its orphan child) presented with every namespace of the tree on secrets, auth and system paths}; every request (plain, rule-directed and hostile forms: trailing and doubled slashes, ./.. segments, mount-boundary, namespace by header or by path prefix, unknown namespaces, restricted sys APIs in child namespaces, internal operations) is judged by the reference authoriser and compared with handler log, response class, tagged physical writes and a digest of the recording mounts' storage; configuration changes (policy rewrite/delete/recreate, token revocation by id / accessor / self, revocation of the parent of a batch token by six API flows with and without a storage fault, entity disable and entity policies, unmount / mount / remount, one seal-unseal cycle with requests against the sealed core) are bracketed by the same request before and immediately after; three of four topologies run with the cache (and therefore the policy LRU) enabled, half on a transactional store. A case is non-trivial when (a) a request was refused only because of the token state while its policies allow it, (b) an authorised request reached the handler, or (c) a mutation flipped the verdict of the very next request; distinct by (state, op, mount, backend path)")
 	defer r.Write(t)
 	ntopo := kit.N(24, 100)
 	nreq := kit.N(800, 2500)
